@@ -343,7 +343,9 @@ class TPAnalysis:
             clo = th[0].val
             ex = Exec(self.facts, EvDomain())
             from evdom import _flatten
-            for BP in ex.run_closure(clo, this_path=('this',)):
+            from symex import State as _State
+            st0 = _State(); st0.store = {k_: v_ for k_, v_ in P.store.items() if k_[0] == 'f'}          # members start() filled in before it created the thread
+            for BP in ex.run_closure(clo, this_path=('this',), state=st0):
                 B = _flatten(BP)
                 runs = evs(B, 'run'); dels = evs(B, 'delete')
                 okb = len(runs) == 1 and len(dels) == 1 and B.index(dels[0]) > B.index(runs[0]) and repr(runs[0].val) == repr(dels[0].val)
